@@ -94,6 +94,10 @@ func main() {
 		add(childSpec{Mode: "poison", LogLevel: "debug"}, cfg.BinPlain, 10*time.Minute)
 		add(childSpec{Mode: "keyperm", LogLevel: "error"}, cfg.BinPlain, 10*time.Minute)
 		for s := 0; s < cfg.N(2, 6); s++ {
+			add(childSpec{Mode: "revokeby", Shard: s, N: cfg.N(3, 15), LogLevel: levels[(s+2)%len(levels)]}, cfg.BinPlain, 10*time.Minute)
+			add(childSpec{Mode: "burst", Shard: s, N: cfg.N(30, 150), LogLevel: levels[(s+4)%len(levels)]}, cfg.BinPlain, 10*time.Minute)
+		}
+		for s := 0; s < cfg.N(2, 6); s++ {
 			add(childSpec{Mode: "badentry", Shard: s, N: cfg.N(3, 12), LogLevel: levels[(s+1)%len(levels)]}, cfg.BinPlain, 10*time.Minute)
 		}
 		for s := 0; s < cfg.N(2, 6); s++ {
@@ -212,6 +216,10 @@ func finish(cfg vlib.Cfg, rep *vlib.Report) {
 	rep.Floor(rep.Counter("expiry_requests_after") >= 500, "expiry_requests_after=%d", rep.Counter("expiry_requests_after"))
 	rep.Floor(rep.Counter("poison_mutations") >= 200 && rep.Counter("poison_followup_requests") >= 10000, "poison_mutations=%d followups=%d", rep.Counter("poison_mutations"), rep.Counter("poison_followup_requests"))
 	rep.Floor(rep.Counter("sessclean_reset_checks") >= 500 && rep.Counter("cleaner_passes") >= 100, "sessclean_reset_checks=%d cleaner_passes=%d", rep.Counter("sessclean_reset_checks"), rep.Counter("cleaner_passes"))
+	rep.Floor(rep.Counter("revokeby_cells") >= 1000 && rep.Counter("key_resets_to_default") >= 10 && rep.Counter("dev_resets_to_default") >= 5, "revokeby_cells=%d key_resets=%d dev_resets=%d",
+		rep.Counter("revokeby_cells"), rep.Counter("key_resets_to_default"), rep.Counter("dev_resets_to_default"))
+	rep.Floor(rep.Counter("burst_rounds") >= 30, "burst_rounds=%d", rep.Counter("burst_rounds"))
+	rep.Floor(rep.Counter("session_resets_with_authorization") >= 100, "session_resets_with_authorization=%d", rep.Counter("session_resets_with_authorization"))
 	rep.Floor(rep.Counter("badentry_cells") >= 1000, "badentry_cells=%d", rep.Counter("badentry_cells"))
 	rep.Floor(rep.Counter("keyperm_cells") >= 5000, "keyperm_cells=%d", rep.Counter("keyperm_cells"))
 	rep.Floor(rep.Counter("expired_cookie_presentations") >= 500, "expired_cookie_presentations=%d", rep.Counter("expired_cookie_presentations"))
@@ -290,6 +298,10 @@ func childMain(dir string) {
 		rerr = runKeyPerm(w, j, cs)
 	case "badentry":
 		rerr = runBadEntry(w, j, cs)
+	case "revokeby":
+		rerr = runRevokeBy(w, j, cs)
+	case "burst":
+		rerr = runBurst(w, j, cs)
 	case "expiredtwice":
 		rerr = runExpiredTwice(w, j, cs)
 	case "poison":
